@@ -80,6 +80,21 @@ Cu : as.bornmayer 3.0 0.5
 [Pair]
 Cu-Al : as.morse 1.1 2.4 0.2
 """),
+  # Zr takes part through densities only: its embedding function is left to the builder (a null function)
+  "fs_undeclared": dict(fs=True, text=_TAB + """[EAM-Embed]
+Cu : as.polynomial 0.0 -1.5 0.25
+Al : as.sqrt -2.0
+
+[EAM-Density]
+Al->Cu : as.bornmayer 3.0 0.5
+Zr->Cu : as.polynomial 0.5 0.25
+Cu->Al : as.polynomial 1.0 0.5
+Cu->Zr : as.polynomial 0.75 0.0 0.125
+Al->Al : as.polynomial 0.25 0.0 0.5
+
+[Pair]
+Cu-Al : as.morse 1.2 2.5 0.3
+"""),
   "fs_basic": dict(fs=True, text=_TAB + """[EAM-Embed]
 Cu : as.polynomial 0.0 -1.5 0.25
 Al : as.sqrt -2.0
